@@ -11,13 +11,15 @@
                       departures as the capacities force (which entry is evicted is the implementation's choice)
      ApiContract    add_address: pair present afterwards, returns "was new"; remove_address: pair absent afterwards,
                     returns "was present" (with Removed event)
-   Automatic removal/addition on swarm events is allowed, never required.  A panic has no action. *)
+   Automatic removal/addition on swarm events is allowed, never required.  A panic has no action.
+   Runs that also use the custom-data API (insert / take: records without addresses occupy capacity and are invisible in
+   the address snapshot) are judged for Bounded (incl. the record count), PermanentKept and ApiContract only. *)
 EXTENDS TraceIO, FiniteSets
-VARIABLES l, snap, expl, pc, rc, err
-vars == <<l, snap, expl, pc, rc, err>>
-Init == l = 1 /\ snap = {} /\ expl = {} /\ pc = 1 /\ rc = 1 /\ err = "ok" /\ InitReg
+VARIABLES l, snap, expl, pc, rc, err, cust
+vars == <<l, snap, expl, pc, rc, err, cust>>
+Init == l = 1 /\ snap = {} /\ expl = {} /\ pc = 1 /\ rc = 1 /\ err = "ok" /\ cust = FALSE /\ InitReg
 R == Rec[l]
-Reset == R.e = "reset" /\ snap' = {} /\ expl' = {} /\ pc' = R.pc /\ rc' = R.rc /\ err' = "ok"
+Reset == R.e = "reset" /\ snap' = {} /\ expl' = {} /\ pc' = R.pc /\ rc' = R.rc /\ err' = "ok" /\ cust' = (Has(R, "cust") /\ R.cust)
 SetOf(q) == {q[i] : i \in 1..Len(q)}
 Max0(n) == IF n > 0 THEN n ELSE 0
 PeersOf(S) == {x[1] : x \in S}
@@ -46,7 +48,8 @@ Op ==
          needPeerEvict == Max0(Cardinality(PeersOf(pre)) - Cardinality({p \in gonePeers : emptied(p)}) + Cardinality(newPeers) - pc)
          survivors == PeersOf(pre) \cap PeersOf(post)
          needAddrEvict(p) == Max0(Cardinality(Of(pre, p)) - Cardinality(Of(evR, p)) + Cardinality(Of(evAp, p)) - rc)
-         bounded == Cardinality(PeersOf(post)) <= pc /\ \A p \in PeersOf(post) : Cardinality(Of(post, p)) <= rc
+         bounded == /\ Cardinality(PeersOf(post)) <= pc /\ \A p \in PeersOf(post) : Cardinality(Of(post, p)) <= rc
+                    /\ (Has(R, "nrec") => R.nrec <= pc)        \* records without addresses (custom data only) count as peers too
          permKept == explicit \/ evR \cap expl = {}
          exact == /\ Len(R.evs) = Cardinality(evA) + Cardinality(evR) /\ Cardinality(evAp) = Cardinality(evA)
                   /\ \A x \in evA : x \in addSubj /\ <<x[1], x[2]>> \in post /\ (<<x[1], x[2]>> \notin pre \/ <<x[1], x[2]>> \in evR)
@@ -58,11 +61,11 @@ Op ==
          api == CASE R.op = "add" -> <<R.p, R.a>> \in post /\ R.ret = (<<R.p, R.a>> \notin pre)
                   [] R.op = "remove" -> <<R.p, R.a>> \notin post /\ R.ret = (<<R.p, R.a>> \in pre) /\ (R.ret => <<R.p, R.a>> \in evR)
                   [] OTHER -> TRUE
-     IN /\ err' = IF ~bounded THEN "Bounded" ELSE IF ~permKept THEN "PermanentKept" ELSE IF ~exact THEN "EventsExact"
+     IN /\ err' = IF ~bounded THEN "Bounded" ELSE IF ~permKept THEN "PermanentKept" ELSE IF ~cust /\ ~exact THEN "EventsExact"
                   ELSE IF ~api THEN "ApiContract" ELSE "ok"
         /\ snap' = post
         /\ expl' = ((expl \ evR) \cup (IF R.op = "add" THEN {<<R.p, R.a>>} ELSE {})) \cap post
-  /\ UNCHANGED <<pc, rc>>
+  /\ UNCHANGED <<pc, rc, cust>>
 Next == l <= NRec /\ l' = l + 1 /\ (Reset \/ Op)
 Spec == Init /\ [][Next]_vars
 Bounded == err # "Bounded"
